@@ -13,6 +13,7 @@ struct DocOpts {
     int max_blocks = 3, max_items = 5, max_loops = 2, max_cols = 4, max_rows = 4, max_frames = 2, frame_depth = 1;
     ValueOpts vo;
     bool long_values = false;     // occasionally a single-line value near / beyond the 2048 line limit
+    bool hard_text = false;       // add strings built from delimiter-defeating fragments
     bool api_domain = false;      // names/codes may use the full CIF 2.0 repertoire (incl. supplementary); values per vo
 };
 
@@ -41,7 +42,16 @@ inline Gen<ustr> nth_name(const char16_t *stem, int k, cp::Dialect d) {
     });
 }
 
+// strings assembled from the fragments that decide how a writer must present a value (both triple delimiters, newline-
+// semicolon, empty lines, backslashes before line ends, leading semicolons, trailing blanks)
+inline Gen<Value> hard_text(bool cif11) {
+    auto frag = cif11 ? rc::gen::element<ustr>(u"' ", u"\" ", u"'", u"\"", u"\n;", u"\n", u"\\\n", u"\\ \n", u";", u" ", u"a", u"\n\n", u"\\", u"b c", u"_x", u"#", u"\t\n", u"data_")
+                      : rc::gen::element<ustr>(u"'''", u"\"\"\"", u"'", u"\"", u"\n;", u"\n", u"\\\n", u"\\ \n", u";", u" ", u"a", u"\n\n", u"\\", u"b c", u"é", u"#", u"\t\n", u"\U0001D4B3");
+    return rc::gen::map(rc::gen::container<std::vector<ustr>>(frag), [](std::vector<ustr> v) { ustr s; for (auto &f : v) s += f; return Value::chr(s, true); });
+}
+
 inline Gen<Value> doc_value(const DocOpts &o) {
+    if (o.hard_text && !o.long_values) return rc::gen::weightedOneOf<Value>({{8, value(o.vo, 0)}, {2, hard_text(o.dialect == cp::CIF11)}});
     if (!o.long_values) return value(o.vo, 0);
     Profile lp = o.dialect == cp::CIF2 ? P_CIF2_LINE : P_CIF11_LINE;
     auto longv = rc::gen::map(rc::gen::tuple(rc::gen::element(2040, 2044, 2045, 2046, 2047, 2048, 2049, 2052, 2100, 4095, 4097), text(lp, 12), range(0, 40)),
@@ -53,6 +63,7 @@ inline Gen<Value> doc_value(const DocOpts &o) {
                                   for (size_t i = 0; i < r.size() && cps < n; i++) { cut += r[i]; if (!(r[i] >= 0xD800 && r[i] <= 0xDBFF)) cps++; }
                                   return Value::chr(cut, true);
                               });
+    if (o.hard_text) return rc::gen::weightedOneOf<Value>({{30, value(o.vo, 0)}, {1, longv}, {7, hard_text(o.dialect == cp::CIF11)}});
     return rc::gen::weightedOneOf<Value>({{30, value(o.vo, 0)}, {1, longv}});
 }
 
